@@ -466,6 +466,19 @@ impl Indexable for ast::ParentClassList {
             }
         } else if let Some(defm_id) = ctx.scopes.current_defm_id() {
             for class_ref in self.classes() {
+                // after its multiclasses a defm may name classes: the records it defines inherit
+                // from them as well (`defm X : MC<1>, SomeClass;`)
+                let names_class = class_ref
+                    .name()
+                    .and_then(|it| it.value())
+                    .is_some_and(|name| {
+                        ctx.symbol_map.find_multiclass(&name).is_none()
+                            && ctx.symbol_map.find_class(&name).is_some()
+                    });
+                if names_class {
+                    resolve_class_ref_as_class(&class_ref, ctx);
+                    continue;
+                }
                 if let Some(parent_multiclass_id) = resolve_class_ref_as_multiclass(&class_ref, ctx)
                 {
                     let defm = ctx.symbol_map.defm_mut(defm_id);
